@@ -500,6 +500,10 @@ type StressCase struct {
 	Entries []string `json:"entries"`
 	Delays  []int    `json:"delays"` // start delay of each entry in microseconds
 	Real    bool     `json:"real"`   // real polling loops of the RPC watcher
+	Faults  []string `json:"faults"`
+	LatUs   int      `json:"lat_us"`   // latency of the simulated chain servers (see Ctl)
+	LongPct int      `json:"long_pct"`
+	LongMs  int      `json:"long_ms"`
 }
 
 // RunStress runs one case with free-running goroutines; the watchdog reports
@@ -523,6 +527,10 @@ func RunStress(t int, sc *StressCase, out *ndj.Writer, workdir string, watchdog,
 			return false, err
 		}
 	}
+	for _, f := range sc.Faults {
+		w.SetFault(f, true)
+	}
+	ctl.LatUs, ctl.LongPct, ctl.LongMs = sc.LatUs, sc.LongPct, sc.LongMs // preparation ran without latency
 	ctl.Emit("reset", Ev{"name": sc.Name, "mode": "stress", "watcher": sc.Watcher, "role": sc.Role, "stage": sc.Stage, "csv": sc.Csv, "restart": sc.Restart, "entries": sc.Entries})
 	start := make(chan struct{})
 	for i, e := range sc.Entries {
@@ -621,6 +629,43 @@ func GenStress(seed int64, rounds int, entries []string) []*StressCase {
 				out = append(out, c)
 			}
 		}
+	}
+	// Focus: a block notification (HandleCsvTx / Update, the dispatcher) against a handler that reaches the
+	// watcher's registries (AddWaitForCsvTx -> addCsvTx, TxClaimed, AddWaitForConfirmationTx, Register), with a
+	// CSV watch already registered, repeatedly and with different latencies of the chain servers.
+	for r := 0; r < rounds; r++ {
+		for k := 0; k < 24; k++ {
+			role := []string{"in_sender", "out_receiver"}[rng.Intn(2)]
+			c := &StressCase{Watcher: []string{"rpc", "rpc-lbtc", "rpc", "el"}[k%4], Role: role, Csv: []string{"not", "edge"}[rng.Intn(2)]}
+			switch k % 3 {
+			case 0:
+				c.Stage, c.Entries = "await_claim", []string{"blk", "msg_cancel"}
+			case 1:
+				c.Stage, c.Entries = "await_claim", []string{"blk", "msg_coop_bad"}
+			default:
+				c.Stage, c.Entries, c.Faults = "wait_csv", []string{"blk", "msg_coop"}, []string{"wallet.coop"}
+			}
+			c.Delays = []int{rng.Intn(2) * rng.Intn(2000), rng.Intn(3) * rng.Intn(1500)}
+			if rng.Intn(3) == 0 {
+				c.Entries = append(c.Entries, "blk")
+				c.Delays = append(c.Delays, 1000+rng.Intn(8000))
+			}
+			c.Name = fmt.Sprintf("r%d/focus%d/%s/%s/%s/%s/%s", r, k, strings.Join(c.Entries, "+"), c.Watcher, c.Role, c.Stage, c.Csv)
+			out = append(out, c)
+		}
+		for k := 0; k < 4; k++ {
+			role := []string{"out_sender", "in_receiver"}[k%2]
+			c := &StressCase{Watcher: []string{"rpc", "rpc-lbtc"}[(k/2)%2], Role: role, Stage: "await_opening", Csv: "not",
+				Entries: []string{"msg_opening", "blk_obs"}, Delays: []int{rng.Intn(500), rng.Intn(3000)}, Real: true}
+			c.Name = fmt.Sprintf("r%d/focus-conf%d/%s/%s", r, k, c.Watcher, role)
+			out = append(out, c)
+		}
+	}
+	// latency profile of the simulated chain servers, per case
+	for _, c := range out {
+		c.LatUs = []int{500, 2000, 4000}[rng.Intn(3)]
+		c.LongPct = []int{0, 10, 25}[rng.Intn(3)]
+		c.LongMs = 10 + rng.Intn(30)
 	}
 	rng.Shuffle(len(out), func(i, j int) { out[i], out[j] = out[j], out[i] })
 	return out
